@@ -6,6 +6,8 @@
 //! ingredient equal those obtained by reading the ingredient on its own; unsigned => no manifest, no failure.
 //!
 //! Mutants caught (tools/mutant_run.sh H <diff> C39 quick):
+//!   /verif/mutants/C39-validation-results-get-or-insert.diff (independently seeded, first MISSED; led to the ingredient
+//!       definition factor) -> `state-differs ... def=emitted-other` / `failure-codes-differ ... def=emitted-other`
 //!   /verif/mutants/C39-ingredient-drops-failure-codes.diff -> `state-differs ...` / `failure-codes-differ ...` for tampered ingredients
 
 use c2pa::{Builder, BuilderIntent, DigitalSourceType};
@@ -26,6 +28,18 @@ pub struct Seed {
     pub store: Vec<u8>,
     pub tampered: Vec<u8>,
     pub tamper_pos: usize,
+    /// the ingredient JSON the SDK itself emits (serialised Ingredient after add_ingredient_from_stream) for the signed / the tampered asset
+    pub json_signed: Value,
+    pub json_tampered: Value,
+}
+
+/// The SDK-emitted ingredient definition of an asset: what a tool gets when it serialises the Ingredient it just added.
+fn emitted_json(mime: &str, data: &[u8]) -> Value {
+    let mut b = new_builder("componentOf", "scratch");
+    match b.add_ingredient_from_stream(r#"{"title":"scratch","relationship":"componentOf"}"#, mime, &mut Cursor::new(data)) {
+        Ok(i) => serde_json::to_value(&*i).unwrap_or(Value::Null),
+        Err(e) => kit::ev::machinery(format!("C39: cannot obtain the emitted ingredient JSON: {e:?}")),
+    }
 }
 
 /// (state, failure (code,url) list sorted) of reading an asset on its own; None when it carries no manifest.
@@ -96,7 +110,11 @@ pub fn seeds(thorough: bool) -> Vec<Seed> {
         let Some((tamper_pos, tampered)) = found else {
             kit::ev::machinery(format!("C39 seed {}: no single byte flip gives a readable asset with a hash mismatch", a.name));
         };
-        out.push(Seed { name: a.name.to_string(), mime: a.mime, unsigned: a.data.clone(), signed, store, tampered, tamper_pos });
+        let (json_signed, json_tampered) = (emitted_json(a.mime, &signed), emitted_json(a.mime, &tampered));
+        if !json_signed["validation_results"].is_object() || !json_tampered["validation_results"].is_object() {
+            kit::ev::machinery(format!("C39 seed {}: the emitted ingredient JSON carries no validation_results", a.name));
+        }
+        out.push(Seed { name: a.name.to_string(), mime: a.mime, unsigned: a.data.clone(), signed, store, tampered, tamper_pos, json_signed, json_tampered });
     }
     out
 }
@@ -108,10 +126,14 @@ pub struct Case {
     pub rel: String,
     pub mode: String,
     pub parent: String,
+    /// ingredient definition passed with the stream: "minimal" | "emitted-same" (the SDK-emitted JSON of the very asset in the
+    /// stream: accurate validation_results) | "emitted-other" (emitted for the pristine asset while the stream is the tampered
+    /// one, or vice versa: stale validation_results)
+    pub def: String,
 }
 impl Case {
     pub fn to_json(&self) -> Value {
-        json!({"seed": self.seed, "state": self.state, "rel": self.rel, "mode": self.mode, "parent": self.parent})
+        json!({"seed": self.seed, "state": self.state, "rel": self.rel, "mode": self.mode, "parent": self.parent, "def": self.def})
     }
     pub fn from_json(v: &Value) -> Case {
         Case {
@@ -120,10 +142,11 @@ impl Case {
             rel: v["rel"].as_str().unwrap_or("componentOf").into(),
             mode: v["mode"].as_str().unwrap_or("direct").into(),
             parent: v["parent"].as_str().unwrap_or("jpeg").into(),
+            def: v["def"].as_str().unwrap_or("minimal").into(),
         }
     }
     pub fn id(&self) -> String {
-        format!("{}/{}/{}/{} in {}", self.seed, self.state, self.rel, self.mode, self.parent)
+        format!("{}/{}/{}/{}/{} in {}", self.seed, self.state, self.rel, self.mode, self.def, self.parent)
     }
 }
 
@@ -140,10 +163,24 @@ pub fn new_builder(rel: &str, title: &str) -> Builder {
 }
 
 /// Sign `parent` with `ing` (mime, bytes) added as an ingredient; returns (asset, store).
-pub fn make_parent(c: &Case, title: &str, ing_mime: &str, ing: &[u8], via_archive: bool) -> Result<(Vec<u8>, Vec<u8>), String> {
+/// The ingredient definition JSON for a case (first hop only; later hops of a chain use the minimal one).
+pub fn ingredient_json(c: &Case, s: Option<&Seed>) -> String {
+    let minimal = json!({"title": "the-ingredient", "relationship": c.rel});
+    let Some(s) = s else { return minimal.to_string() };
+    let mut j = match (c.def.as_str(), c.state.as_str()) {
+        ("emitted-same", "signed") | ("emitted-other", "tampered") => s.json_signed.clone(),
+        ("emitted-same", "tampered") | ("emitted-other", "signed") => s.json_tampered.clone(),
+        _ => return minimal.to_string(),
+    };
+    j["title"] = json!("the-ingredient");
+    j["relationship"] = json!(c.rel);
+    j.to_string()
+}
+
+pub fn make_parent(c: &Case, title: &str, ing_mime: &str, ing: &[u8], via_archive: bool, seed: Option<&Seed>) -> Result<(Vec<u8>, Vec<u8>), String> {
     let p = assets::by_name(&c.parent);
     let signer = sdk::fixture_signer("ed25519");
-    let ing_json = json!({"title": "the-ingredient", "relationship": c.rel}).to_string();
+    let ing_json = ingredient_json(c, seed);
     let mut b = new_builder(&c.rel, title);
     if via_archive {
         let mut b1 = new_builder(&c.rel, "archiver");
@@ -252,13 +289,13 @@ pub fn run_case(c: &Case, seeds: &[Seed]) -> Result<(String, Vec<(String, String
         let pm = assets::by_name(&c.parent).mime;
         let mut fails = vec![];
         match c.mode.as_str() {
-            "direct" | "archive" => match make_parent(c, "outer", s.mime, ing, c.mode == "archive") {
+            "direct" | "archive" => match make_parent(c, "outer", s.mime, ing, c.mode == "archive", Some(s)) {
                 Err(e) => fails.push((format!("build-error step={}", e.split(':').next().unwrap_or("")), e)),
                 Ok((out, pstore)) => judge_parent(s.mime, ing, store, pm, &out, &pstore, &mut fails),
             },
-            _ => match make_parent(c, "middle", s.mime, ing, false) {
+            _ => match make_parent(c, "middle", s.mime, ing, false, Some(s)) {
                 Err(e) => fails.push((format!("build-error step=middle-{}", e.split(':').next().unwrap_or("")), e)),
-                Ok((mid, mid_store)) => match make_parent(c, "outer", pm, &mid, false) {
+                Ok((mid, mid_store)) => match make_parent(c, "outer", pm, &mid, false, None) {
                     Err(e) => fails.push((format!("build-error step=outer-{}", e.split(':').next().unwrap_or("")), e)),
                     Ok((out, pstore)) => judge_parent(pm, &mid, Some(&mid_store), pm, &out, &pstore, &mut fails),
                 },
@@ -277,7 +314,7 @@ fn judge(run: &Run, c: &Case, seeds: &[Seed]) {
     match r {
         Err(p) => {
             run.outcome("panic");
-            run.violation(format!("panic state={} rel={} mode={}", c.state, c.rel, c.mode), format!("{}: {p}", c.id()), c.to_json());
+            run.violation(format!("panic state={} rel={} mode={} def={}", c.state, c.rel, c.mode, c.def), format!("{}: {p}", c.id()), c.to_json());
         }
         Ok((class, fails)) => {
             run.outcome(format!("{class}:{}", c.state));
@@ -288,7 +325,7 @@ fn judge(run: &Run, c: &Case, seeds: &[Seed]) {
                 if k.starts_with("harness") {
                     kit::ev::machinery(format!("C39 {}: {k}: {w}", c.id()));
                 }
-                STATS.get_or_init(Default::default).violation(run, 25, format!("{k} state={} rel={} mode={} seed={}", c.state, c.rel, c.mode, c.seed), format!("{}: {w}", c.id()), c.to_json());
+                STATS.get_or_init(Default::default).violation(run, 25, format!("{k} state={} rel={} mode={} def={} seed={}", c.state, c.rel, c.mode, c.def, c.seed), format!("{}: {w}", c.id()), c.to_json());
             }
         }
     }
@@ -300,6 +337,7 @@ pub fn run(run: &Run, replay: Option<&Value>) {
               non-trivial = distinct cases whose parent could be built so that store bytes and recorded validation were compared with the ingredient read on its own.");
     run.assume("the store bytes returned by Builder::sign for the ingredient are taken as the ingredient's manifest store; superboxes are compared with an independent JUMBF walker");
     run.assume("recorded state = Invalid iff the ingredient's recorded validation_results contain a failure; failure codes compared as sorted lists (then with URLs)");
+    run.assume("whatever validation_results the ingredient definition already carries, the recorded results must be those of the stream as it validates now (the property's 'obtained by reading the ingredient on its own')");
     run.assume("intent Edit for parentOf, Create otherwise, so the ingredient under test is the only one");
     let thorough = run.tier.is_thorough();
     let seeds = seeds(thorough || replay.is_some());
@@ -315,12 +353,16 @@ pub fn run(run: &Run, replay: Option<&Value>) {
     let parents: Vec<&str> = if thorough { vec!["jpeg", "png", "mp4"] } else { vec!["jpeg"] };
     let mut cases = vec![];
     for s in &seeds { for st in STATES { for rel in RELS { for mode in MODES { for p in &parents {
-        cases.push(Case { seed: s.name.clone(), state: st.into(), rel: rel.into(), mode: mode.into(), parent: p.to_string() });
+        for def in ["minimal", "emitted-same", "emitted-other"] {
+            // definitions that carry validation_results exist for signed / tampered streams; routes: direct and via archive (thorough: chain too)
+            if def != "minimal" && (st == "unsigned" || (mode == "chain2" && !thorough)) { continue; }
+            cases.push(Case { seed: s.name.clone(), state: st.into(), rel: rel.into(), mode: mode.into(), parent: p.to_string(), def: def.into() });
+        }
     }}}}}
-    run.space(&format!("seed asset({}) x state(3) x relationship(3) x mode(3) x parent asset({})", seeds.len(), parents.len()), cases.len() as u64, true);
+    run.space(&format!("seed asset({}) x state(3) x relationship(3) x mode(3) x parent asset({}) x ingredient definition {{minimal; for signed/tampered streams also the SDK-emitted JSON of the same asset and of the other (pristine<->tampered) asset, on the direct and archive routes (thorough: chain too)}}", seeds.len(), parents.len()), cases.len() as u64, true);
     // determinism
     {
-        let c = Case { seed: "png".into(), state: "tampered".into(), rel: "componentOf".into(), mode: "chain2".into(), parent: "jpeg".into() };
+        let c = Case { seed: "png".into(), state: "tampered".into(), rel: "componentOf".into(), mode: "chain2".into(), parent: "jpeg".into(), def: "minimal".into() };
         let keys = |r: Result<(String, Vec<(String, String)>), String>| r.map(|(c, f)| format!("{c} {:?}", f.into_iter().map(|x| x.0).collect::<Vec<_>>()));
         let x = keys(run_case(&c, &seeds));
         let y = keys(run_case(&c, &seeds));
